@@ -14,65 +14,76 @@ import (
 
 func wireLength(w *World, wc *wireCtx, r *Report) {
 	const ruleLink = "C04/linking"
-	vpd := lookupFunc(w.Parser, "PacketDslVisitorImpl", "VisitPacketDefinition")
-	if vpd == nil {
-		r.fatal("anchor unresolved: (*PacketDslVisitorImpl).VisitPacketDefinition")
-		return
-	}
-	// (1) the target field receives LenAttr = the length field's attribute, under a name comparison with the declared target
+	// (1) somewhere in the parse phase the target field receives LenAttr = the length field's attribute, under a name comparison
+	// with the declared target (the routine is found by what it does, not by its name)
 	lenAttrStore, lenOfStore, targetStore := false, false, false
 	cmpOK := false
-	cd := computeCD(vpd)
-	forEachInstr(vpd, func(b *ssa.BasicBlock, ins ssa.Instruction) {
-		st, ok := ins.(*ssa.Store)
-		if !ok {
-			return
-		}
-		fa, ok := st.Addr.(*ssa.FieldAddr)
-		if !ok {
-			return
-		}
-		tn, f, _, _ := fieldOf(fa)
-		switch tn + "." + f {
-		case "Field.LenAttr":
-			v := stripIdentity(st.Val)
-			if ld, ok := v.(*ssa.UnOp); ok && ld.Op == token.MUL {
-				if fa2, ok := ld.X.(*ssa.FieldAddr); ok {
-					if _, f2, _, _ := fieldOf(fa2); f2 == "Attr" {
-						lenAttrStore = true
-						// control dependent on a comparison of names through TragetField
-						for _, d := range cd.allCtrl(b) {
-							if cond := branchCond(d.Branch); cond != nil && mentionsField(cond, "TragetField", 0) && mentionsField(cond, "Name", 0) {
-								cmpOK = true
+	var vpd *ssa.Function
+	for _, pf := range parsePhaseFuncs(w) {
+		pf := pf
+		var cd *cdInfo
+		forEachInstr(pf, func(b *ssa.BasicBlock, ins ssa.Instruction) {
+			st, ok := ins.(*ssa.Store)
+			if !ok {
+				return
+			}
+			fa, ok := st.Addr.(*ssa.FieldAddr)
+			if !ok {
+				return
+			}
+			tn, f, _, _ := fieldOf(fa)
+			switch tn + "." + f {
+			case "Field.LenAttr":
+				v := stripIdentity(st.Val)
+				if ld, ok := v.(*ssa.UnOp); ok && ld.Op == token.MUL {
+					if fa2, ok := ld.X.(*ssa.FieldAddr); ok {
+						if _, f2, _, _ := fieldOf(fa2); f2 == "Attr" {
+							lenAttrStore = true
+							vpd = pf
+							if cd == nil {
+								cd = computeCD(pf)
+							}
+							// control dependent on a comparison of names through TragetField
+							for _, d := range cd.allCtrl(b) {
+								if cond := branchCond(d.Branch); cond != nil && mentionsField(cond, "TragetField", 0) && mentionsField(cond, "Name", 0) {
+									cmpOK = true
+								}
+							}
+						}
+					}
+				}
+				if al, ok := v.(*ssa.Alloc); ok && modelTypeName(al.Type().(*types.Pointer).Elem()) == "LengthOfAttribute" {
+					lenOfStore = true
+				}
+			case "LengthFieldAttribute.TragetField":
+				// resolved target: a found lookup result
+				if ex, ok := stripIdentity(st.Val).(*ssa.Extract); ok {
+					if lk, ok := ex.Tuple.(*ssa.Lookup); ok && lk.CommaOk {
+						for _, t := range membershipTests(pf) {
+							if t.lookup == lk && edgeDominates(t.branch, t.presentSucc, b) {
+								targetStore = true
 							}
 						}
 					}
 				}
 			}
-			if al, ok := v.(*ssa.Alloc); ok && modelTypeName(al.Type().(*types.Pointer).Elem()) == "LengthOfAttribute" {
-				lenOfStore = true
-			}
-		case "LengthFieldAttribute.TragetField":
-			// resolved target: a found lookup result
-			if ex, ok := stripIdentity(st.Val).(*ssa.Extract); ok {
-				if lk, ok := ex.Tuple.(*ssa.Lookup); ok && lk.CommaOk {
-					for _, t := range membershipTests(vpd) {
-						if t.lookup == lk && edgeDominates(t.branch, t.presentSucc, b) {
-							targetStore = true
-						}
-					}
-				}
-			}
-		}
-	})
+		})
+	}
+	if vpd == nil {
+		vpd = lookupFunc(w.Parser, "PacketDslVisitorImpl", "VisitPacketDefinition")
+	}
+	posOf := ""
+	if vpd != nil {
+		posOf = w.pos(vpd.Pos())
+	}
 	chk := func(ok bool, key, detail string) {
 		if ok {
-			r.pass(ruleLink, key, w.pos(vpd.Pos()), "")
+			r.pass(ruleLink, key, posOf, "")
 		} else {
-			r.fail(ruleLink, key, w.pos(vpd.Pos()), detail)
+			r.fail(ruleLink, key, posOf, detail)
 		}
 	}
-	chk(lenAttrStore, "target field receives the length field's attribute as LenAttr", "VisitPacketDefinition no longer stores the length field's attribute into the target's LenAttr: no generator will back-patch")
+	chk(lenAttrStore, "target field receives the length field's attribute as LenAttr", "no parse-phase routine stores the length field's attribute into the target's LenAttr: no generator will back-patch")
 	chk(cmpOK, "the target is selected by comparing names with the declared @lengthOf target", "the LenAttr store is not controlled by a comparison of a field name with TragetField.Name")
 	chk(lenOfStore, "the length field is marked with a LengthOfAttribute", "the length field itself no longer receives a LengthOfAttribute")
 	chk(targetStore, "the length field's target is the declared field, found by a checked lookup", "TragetField is not assigned from a checked (found) lookup of the declared name")
